@@ -1,5 +1,7 @@
 import TempestVerif.Drv.Util
 import TempestVerif.Model.StateMgr
+import TempestVerif.Model.StateMgrN
+import TempestVerif.Model.StateMgrX
 /-
   Line protocol of property C17 (StateManager reference model).  A whole op sequence travels in one line:
 
@@ -253,11 +255,282 @@ def runOps (ops : String) : String :=
   let sim := toks.foldl exec { s := init, recs := [], out := [] }
   if sim.out.isEmpty then "-" else "|".intercalate sim.out
 
+end Drv.C17
+
+/-
+  Nested values (`Model/StateMgrN.lean`):      sm2.run deep=<01> ops=<op>;<op>;…   →   <digest>|<digest>|…
+  Same op syntax as `sm.run`, restricted to  set / get / getall / geth / getl / commit / results / todict / imp:<i>:<c|h|ch> / scr,
+  with one more argument form:
+      O<e>~<e>~…     a new container (object array; a list for the key `assignments`; `D<e>~<e>…` = a dict) with elements
+                     e = N | S<int> | A<int>.<int>… | H<i> (the single plain array obtained in op i);  `O` alone = empty container
+  `scr:<i>:<val>` overwrites everything obtained in op i: first every array inside a returned container, then every plain
+  array, then every element of every container (`o[...] = val`).
+  digest:  r=<result>#c=<current>#h=<history>#R=<results | skip>   payloads  N | S<int> | A… | O<p>~<p>… | X (not represented)
+  `deep=0` runs the rule before b0f244e (shallow container copies) — used by the harness only to show that the suite
+  tells the two rules apart.
+-/
+namespace Drv.C17N
+open Drv
+open Model.StateMgr (Key Val Addr Content lookup historyKeys)
+open Model.StateMgrN
+
+def showContent (c : Content) : String := "A" ++ ".".intercalate (c.map toString)
+
+def showP1 : P1 → String
+  | .none => "N"
+  | .scalar x => s!"S{x}"
+  | .arr c => showContent c
+  | .opaque => "X"
+
+def showPVal : PVal → String
+  | .none => "N"
+  | .scalar x => s!"S{x}"
+  | .arr c => showContent c
+  | .objs es => "O" ++ "~".intercalate (es.map showP1)
+  | .opaque => "X"
+
+def showDict (d : List (Key × PVal)) : String :=
+  ",".intercalate (((Drv.C17.sortKeys d).filter fun kv => kv.2 != PVal.none).map fun kv => s!"{kv.1}:{showPVal kv.2}")
+    ++ s!";n={d.length}"
+
+def showHist (d : List (Key × List PVal)) : String :=
+  ",".intercalate (((Drv.C17.sortKeys d).filter fun kv => !kv.2.isEmpty).map fun kv =>
+      s!"{kv.1}:{"/".intercalate (kv.2.map showPVal)}")
+    ++ s!";n={d.length}"
+
+def showPRes : PRes → String
+  | .unit => "U"
+  | .val v => s!"V:{showPVal v}"
+  | .dict d => s!"D:{showDict d}"
+  | .export c h => s!"X:{showDict c};{showHist h}"
+  | .err e => s!"E:{Drv.C17.showErr e}"
+
+/-- results: `logw` by length; empty arrays omitted (as in `sm.run`) -/
+def showResults : PRes → String
+  | .dict d => showDict (d.map fun kv => if kv.1 == "logw" then
+      (kv.1, match kv.2 with | .arr c => PVal.scalar c.length | v => v)
+      else (kv.1, if kv.2 == PVal.arr [] then PVal.none else kv.2))
+  | r => showPRes r
+
+def isScalarV : Val → Bool
+  | .scalar _ => true
+  | _ => false
+
+def wellFormed (s : State) : Bool :=
+  match lookup "beta" s.history, lookup "logz" s.history, lookup "logl" s.history with
+  | some b, some z, some l =>
+    b.isEmpty || (b.all isScalarV && z.all isScalarV && l.all (fun v => match v with | .ref a => isData s.heap a | _ => false)
+                  && z.length == b.length && l.length == b.length)
+  | _, _, _ => false
+
+structure Rec where
+  roots : List Addr
+  res : Res
+
+structure Sim where
+  s : State
+  recs : List Rec
+  out : List String
+
+def parseArg1 (recs : List Rec) (t : String) : Option Arg1 :=
+  if t == "N" then some .none else
+  match t.toList with
+  | 'S' :: r => (String.ofList r).toInt?.map Arg1.scalar
+  | 'A' :: r =>
+    let body := String.ofList r
+    if body.isEmpty then some (.fresh []) else ((body.splitOn ".").mapM String.toInt?).map Arg1.fresh
+  | 'H' :: r =>
+    match (String.ofList r).toNat? with
+    | some i => match recs[i]? with
+      | some rc => match rc.roots with
+        | [a] => some (.held a)
+        | _ => none
+      | none => none
+    | none => none
+  | _ => none
+
+def parseArg (recs : List Rec) (t : String) : Option Arg :=
+  let container (r : List Char) : Option Arg :=
+    let body := String.ofList r
+    if body.isEmpty then some (.freshObjs []) else ((body.splitOn "~").mapM (parseArg1 recs)).map Arg.freshObjs
+  match t.toList with
+  | 'O' :: r => container r      -- object ndarray (a list for the key `assignments`)
+  | 'D' :: r => container r      -- dict {"k0": e0, "k1": e1, …}: the same kind of cell (a container of references)
+  | _ => (parseArg1 recs t).map fun x => match x with
+    | .none => Arg.none
+    | .scalar v => .scalar v
+    | .fresh p => .fresh p
+    | .held a => .held a
+
+def valToArg : Val → Arg
+  | .none => .none
+  | .scalar x => .scalar x
+  | .ref a => .held a
+
+def parseOp (recs : List Rec) (t : String) : Option Op :=
+  match t.splitOn ":" with
+  | ["set", k, a, c] => match parseArg recs a, Drv.C17.parseBool c with
+    | some x, some b => some (.setCurrent k x b)
+    | _, _ => none
+  | ["get", k] => some (.getCurrent (some k))
+  | ["getall"] => some (.getCurrent none)
+  | ["geth", k, i, f] => match Drv.C17.parseBool f with
+    | some b => if i == "*" then some (.getHistory k none b) else i.toInt?.map fun n => .getHistory k (some n) b
+    | none => none
+  | ["getl", k] => some (.getLastHistory k)
+  | ["commit", st] => (Drv.C17.parseBool st).map Op.commit
+  | ["results"] => some .computeResults
+  | ["todict"] => some .toDict
+  | ["imp", i, mode] =>
+    if !(mode.toList.all fun ch => ch == 'c' || ch == 'h') then none else
+    match i.toNat? with
+    | some n => match recs[n]? with
+      | some rc => match rc.res with
+        | .export c h =>
+          let cur := if mode.toList.contains 'c' then some (c.map fun kv => (kv.1, valToArg kv.2)) else none
+          let hist := if mode.toList.contains 'h' then some (h.map fun kv => (kv.1, kv.2.map valToArg)) else none
+          some (.updateFromDict cur hist)
+        | _ => none
+      | none => none
+    | none => none
+  | _ => none
+
+def Res.roots : Res → List Addr
+  | .val v => v.addrs
+  | .dict d => Model.StateMgr.dictAddrs d
+  | .export c h => Model.StateMgr.dictAddrs c ++ Model.StateMgr.histAddrs h
+  | _ => []
+
+def digest (deep : Bool) (r : String) (s : State) : State × String :=
+  let hist := (derefHist s.heap s.history).filter fun kv => historyKeys.contains kv.1
+  if !wellFormed s then
+    (s, s!"r={r}#c={showDict (derefDict s.heap s.current)}#h={showHist hist}#R=skip") else
+  let q := step deep s .computeResults
+  (q.1, s!"r={r}#c={showDict (derefDict s.heap s.current)}#h={showHist hist}#R={showResults (derefRes q.1.heap q.2)}")
+
+/-- `scr:i:val` -/
+def scribbleAll (deep : Bool) (s : State) (roots : List Addr) (val : Int) : State :=
+  let inner := roots.flatMap (kids s.heap)
+  let fill (st : State) (a : Addr) : State :=
+    match bodyAt st.heap a with
+    | some (.data c) => (step deep st (.scribble a (c.map fun _ => val))).1
+    | _ => st
+  let s1 := inner.foldl fill s
+  let s2 := roots.foldl fill s1
+  roots.foldl (fun st a => match bodyAt st.heap a with
+    | some (.objs _) => (step deep st (.scribbleElems a val)).1
+    | _ => st) s2
+
+/-- the new arguments of an op that the caller created and still holds (for later `scr` / `H` references) -/
+def exec (deep : Bool) (sim : Sim) (t : String) : Sim :=
+  let plain (r : String) (s1 : State) : Sim :=
+    let d := digest deep r s1
+    { s := d.1, recs := sim.recs ++ [⟨[], .unit⟩], out := sim.out ++ [d.2] }
+  let bad : Sim := plain "bad-op" sim.s
+  match t.splitOn ":" with
+  | ["scr", i, v] =>
+    match i.toNat?, v.toInt? with
+    | some n, some val =>
+      match sim.recs[n]? with
+      | some rc => plain "U" (scribbleAll deep sim.s rc.roots val)
+      | none => bad
+    | _, _ => bad
+  | _ =>
+    match parseOp sim.recs t with
+    | none => bad
+    | some op =>
+      if (match op with | .computeResults => !wellFormed sim.s | _ => false) then plain "skip" sim.s else
+      let q := step deep sim.s op
+      -- what the caller holds after the op: the returned roots, or the argument it created for a `set`
+      let roots := match op with
+        | .setCurrent _ (.fresh _) _ => [sim.s.heap.length]
+        | .setCurrent _ (.freshObjs es) _ =>
+          if q.2 == Res.err .illegal then [] else
+          [sim.s.heap.length + es.countP fun e => match e with | .fresh _ => true | _ => false]
+        | _ => Res.roots q.2
+      let rs := match op with
+        | .computeResults => (match derefRes q.1.heap q.2 with | .dict d => "D:" ++ showResults (.dict d) | r => showPRes r)
+        | _ => showPRes (derefRes q.1.heap q.2)
+      let d := digest deep rs q.1
+      { s := d.1, recs := sim.recs ++ [⟨roots, q.2⟩], out := sim.out ++ [d.2] }
+
+def runOps (deep : Bool) (ops : String) : String :=
+  let toks := if ops == "-" then [] else ops.splitOn ";"
+  let sim := toks.foldl (exec deep) { s := init, recs := [], out := [] }
+  if sim.out.isEmpty then "-" else "|".intercalate sim.out
+
+end Drv.C17N
+
+namespace Drv.C17
+open Drv Model.StateMgr
+
+/-- `sm.iter ops=<op>;<op>;…` — do the recorded manager calls of one real iteration have the shape of the iteration
+    model (`isIterationShape`: body free of commit / import / copy=False, then one commit, then `get_current()`)?
+    Answers `ok:<number of body ops>` or `bad`. -/
+def iterShape (ops : String) : String :=
+  let toks := if ops == "-" then [] else ops.splitOn ";"
+  match toks.mapM (parseOp []) with
+  | some l => if isIterationShape l then s!"ok:{l.length - 2}" else "bad"
+  | none => "bad-op"
+
+/-- `sm.post ops=<prefix> opt=<resample><return_blobs><trim><return_logw><blobs_declared> scr=<val>`:
+    run the prefix, call `compute_posterior` with these options, then the caller overwrites every returned array.
+    Answers  <result>#<digest after the call>#<digest after the scribbles>  with result = `E:<err>` or the returned slots
+    `name=<payload | L<n> (weights / logw: length only) | A? (gathered rows: not represented) | N>` joined by `,`. -/
+def runPost (ops : String) (opt : String) (val : Int) : String :=
+  let toks := if ops == "-" then [] else ops.splitOn ";"
+  let sim := toks.foldl exec { s := init, recs := [], out := [] }
+  match opt.toList.map (fun ch => ch == '1') with
+  | [rs, rb, tr, rl, bd] =>
+    let q := posterior sim.s ⟨rs, rb, tr, rl, bd⟩
+    let showSlot (h : Heap) (k : Key) (v : Val) : String := match v with
+      | .ref a => (match rd h a with
+        | some c => if k == "weights" || k == "logw" then s!"L{c.length}" else showContent c
+        | none => "A?")
+      | .none => "N"
+      | .scalar x => s!"S{x}"
+    let rstr := match q.2 with
+      | .dict d => ",".intercalate (d.map fun (kv : Key × Val) => s!"{kv.1}={showSlot q.1.heap kv.1 kv.2}")
+      | .err e => s!"E:{showErr e}"
+      | _ => "?"
+    let d1 := digest "-" q.1
+    let s2 := scribbleAll d1.1 (Res.addrs q.2) val
+    let d2 := digest "-" s2
+    s!"{rstr}#{d1.2}#{d2.2}"
+  | _ => "bad-op"
+
+/-- `sm.resume ops=<prefix>` — run the prefix, then `resume` (export, `update_from_dict` into a newly constructed manager, the
+    defaults of `load_sampler_state`); answers the digest of all reads of the RESUMED manager, then the same digest after the
+    caller overwrote every array of the exported dictionary -/
+def runResume (ops : String) (val : Int) : String :=
+  let toks := if ops == "-" then [] else ops.splitOn ";"
+  let sim := toks.foldl exec { s := init, recs := [], out := [] }
+  let ex := step sim.s .toDict
+  let t := resume sim.s
+  let d1 := digest "-" t
+  let t2 := scribbleAll d1.1 (Res.addrs ex.2) val
+  let d2 := digest "-" t2
+  s!"{d1.2}#{d2.2}"
+
 def handle (cmd : String) (args : List (String × String)) : Option String :=
   match cmd with
+  | "sm.resume" => some (match getArg args "ops", (getArg args "scr").bind String.toInt? with
+      | some ops, some v => runResume ops v
+      | _, _ => "bad-op")
   | "sm.run" => some (match getArg args "ops" with
       | some ops => runOps ops
       | none => "bad-op")
+  | "sm.iter" => some (match getArg args "ops" with
+      | some ops => iterShape ops
+      | none => "bad-op")
+  | "sm.post" => some (match getArg args "ops", getArg args "opt", (getArg args "scr").bind String.toInt? with
+      | some ops, some opt, some v => runPost ops opt v
+      | _, _, _ => "bad-op")
+  | "sm2.run" => some (match getArg args "ops", getArg args "deep" with
+      | some ops, some d => (match parseBool d with
+        | some b => Drv.C17N.runOps b ops
+        | none => "bad-op")
+      | _, _ => "bad-op")
   | _ => none
 
 end Drv.C17
